@@ -310,15 +310,30 @@ def opaqueDecode (f : Facts) : Except HttpError Bytes :=
   | .fail name => .error (decodeError name)
   | .na => .error (decodeError [])
 
-/-- response.rs `body_string` + decode.rs:96-125 `decode_body` (feature `encoding`, not wasm) -/
-def decodeString (f : Facts) (body : Bytes) : Except HttpError Bytes :=
+/-- UTF-8 byte order mark EF BB BF: `Encoding::decode` switches to UTF-8 whatever the label says -/
+def bom8 : Bytes → Bool
+  | 239 :: 187 :: 191 :: _ => true
+  | _ => false
+
+/-- which decoder `encoding.decode(bytes)` ends up running (label, then BOM sniffing) -/
+inductive Decoder where
+  | unsupported | utf8 | opaque
+deriving DecidableEq, Repr
+
+def decoderFor (f : Facts) (body : Bytes) : Decoder :=
   match f.enc with
-  | .unknown => .error (decodeError (f.charset.getD utf8Label))
-  | .other => opaqueDecode f
-  | .utf8 =>
-    if bom16 body then opaqueDecode f
-    else if validUtf8 body then .ok body   -- `Cow::Borrowed` ⇒ the original bytes, including a UTF-8 BOM
-    else .error (decodeError utf8Name)
+  | .unknown => .unsupported
+  | .utf8 => if bom16 body then .opaque else .utf8
+  | .other => if bom8 body then .utf8 else .opaque
+
+/-- response.rs `body_string` + decode.rs:96-125 `decode_body` (feature `encoding`, not wasm).
+    UTF-8: valid input decodes to `Cow::Borrowed`, and the code then returns the *original* bytes
+    (`String::from_utf8_unchecked(bytes)`), i.e. including a UTF-8 byte order mark; invalid input sets `failed`. -/
+def decodeString (f : Facts) (body : Bytes) : Except HttpError Bytes :=
+  match decoderFor f body with
+  | .unsupported => .error (decodeError (f.charset.getD utf8Label))
+  | .opaque => opaqueDecode f
+  | .utf8 => if validUtf8 body then .ok body else .error (decodeError utf8Name)
 
 /-- expect.rs: `ExpectBytes`, `ExpectString`, `ExpectJson<T>` on a successful response -/
 def applyExpect (e : Expect) (f : Facts) (status : Nat) (hs : List (Bytes × Bytes)) (body : Bytes) : Outcome :=
